@@ -53,6 +53,14 @@ def probe_source(cat):
         "use quantities::prelude::*;",
         "use quantities::{ConversionTable, Converter, Rate};",
         "",
+        # without std - and without the two optional dependencies, which link
+        # std themselves - nothing may pull the standard library in: a crate
+        # that brings its own panic handler still has to build (a duplicate
+        # lang item shows at `cargo check` already)
+        "#[cfg(not(any(feature = \"std\", feature = \"fpdec\", feature = \"serde\")))]",
+        "#[panic_handler]",
+        "fn probe_panic(_: &core::panic::PanicInfo) -> ! { loop {} }",
+        "",
     ]
 
     def path(n):
@@ -263,9 +271,9 @@ def run(tier):
         configs = named
     # "together with any others": every pair of quantity features (a feature
     # that needs another one and does not say so shows in a pair at the
-    # latest); quick in two columns, thorough in every column
+    # latest); quick in three columns, thorough in every column
     pairs = [[a, b] for i, a in enumerate(ALL_FEATURES) for b in ALL_FEATURES[i + 1:]]
-    configs = configs + [(r, c) for r in pairs for c in ([COLUMNS[0], COLUMNS[-1]] if tier == "quick" else COLUMNS)]
+    configs = configs + [(r, c) for r in pairs for c in ([COLUMNS[0], COLUMNS[4], COLUMNS[-1]] if tier == "quick" else COLUMNS)]
     violations = []
     evaluations = 0
     samples = []
@@ -352,7 +360,7 @@ def run(tier):
     coverage = {
         "evaluations": evaluations + corpus_runs,
         "distinct_nontrivial": len(probe.checked) + corpus_runs,
-        "rule": "configurations = (14 single-feature rows, all, none) x {std,no std} x {f64,decimal} x {serde on,off}: quick checks every row once, every column for 'all' and 'none' and a seeded sample, thorough all 128; plus all 91 pairs of quantity features (quick: the plain and the no-std decimal serde column, thorough: every column); plus Hypothesis-drawn random feature subsets (shrunk to a minimal failing set). Each configuration is built through a probe crate that forwards the features and names, for every enabled quantity and every quantity its definition needs according to the independent table, the type, a unit constant, like arithmetic and every derivation operator with ascribed result types. Stability: a corpus program prints bit patterns and texts of a fixed operation list per quantity; its lines in a minimal configuration must equal those in the full configuration. Non-trivial/distinct: distinct feature sets built plus corpus runs",
+        "rule": "configurations = (14 single-feature rows, all, none) x {std,no std} x {f64,decimal} x {serde on,off}: quick checks every row once, every column for 'all' and 'none' and a seeded sample, thorough all 128; plus all 91 pairs of quantity features (quick: the plain, the bare no-std and the no-std decimal serde column, thorough: every column); plus Hypothesis-drawn random feature subsets (shrunk to a minimal failing set). Each configuration is built through a probe crate that forwards the features and names, for every enabled quantity and every quantity its definition needs according to the independent table, the type, a unit constant, like arithmetic and every derivation operator with ascribed result types. Stability: a corpus program prints bit patterns and texts of a fixed operation list per quantity; its lines in a minimal configuration must equal those in the full configuration. Non-trivial/distinct: distinct feature sets built plus corpus runs",
         "samples": samples,
         "exhaustive": tier != "quick",
         "configurations_built": len(probe.checked),
